@@ -132,7 +132,9 @@ func (c *c19Mon) scenario(sc *StepCtx) {
 	for id, a := range s0.Contexts {
 		b, ok := s1.Contexts[id]
 		if !ok {
-			m.fail(sc, "C09", "removed-only-at-block-end", "zero-height-prep", "context %.16s removed by the zero-height preparation", id)
+			if !abandonedAtRestart(a) {
+				m.fail(sc, "C09", "removed-only-at-block-end", "zero-height-prep", "context %.16s removed by the zero-height preparation", id)
+			}
 			continue
 		}
 		m.hit("C09", "survives-zero-height-prep", fmt.Sprintf("from-%s", a.State))
